@@ -133,9 +133,20 @@ func (h *handler) Handle(ctx context.Context, header *protocol.RequestHeader, re
 				topicNames = append(topicNames, *t.Topic)
 			}
 		}
+		// Auto-creation is a write. With ACLs on, only a principal that may produce
+		// to the topic (or administer the cluster) may trigger it from a metadata request.
+		var deniedCreate map[string]struct{}
 		if h.autoCreateTopics && len(topicNames) > 0 {
 			for _, name := range topicNames {
 				if strings.TrimSpace(name) == "" || !metadata.ValidTopicName(name) {
+					continue
+				}
+				if !h.allowTopic(principal, name, acl.ActionProduce) && !h.allowAdmin(principal) {
+					h.recordAuthzDeniedWithPrincipal(principal, acl.ActionProduce, acl.ResourceTopic, name)
+					if deniedCreate == nil {
+						deniedCreate = make(map[string]struct{})
+					}
+					deniedCreate[name] = struct{}{}
 					continue
 				}
 				if err := h.ensureTopic(ctx, name, 0); err != nil {
@@ -186,6 +197,14 @@ func (h *handler) Handle(ctx context.Context, header *protocol.RequestHeader, re
 		}()
 		if err != nil {
 			return nil, fmt.Errorf("load metadata: %w", err)
+		}
+		for i := range meta.Topics {
+			t := &meta.Topics[i]
+			if t.ErrorCode == protocol.UNKNOWN_TOPIC_OR_PARTITION && t.Topic != nil {
+				if _, denied := deniedCreate[*t.Topic]; denied {
+					t.ErrorCode = protocol.TOPIC_AUTHORIZATION_FAILED
+				}
+			}
 		}
 		resp := kmsg.NewPtrMetadataResponse()
 		resp.Brokers = meta.Brokers
